@@ -41,6 +41,7 @@ func genReadOps(t *rapid.T, c *Case, qs []string, n int) []ReadOp {
 }
 
 func TestC11(t *testing.T) {
+	coldStart = true
 	runProp(t, "C11", checkC11, func(t *rapid.T) *Case {
 		fams := []famWeight{{"K1", 20}, {"K2", 25}, {"K3", 15}, {"K5", 15}, {"K6", 10}, {"K7", 5}, {"Krand", 10}}
 		c := genTrieCase(t, trieGenOpt{fams: fams})
@@ -64,6 +65,7 @@ func TestC11(t *testing.T) {
 }
 
 func TestReplayC11(t *testing.T) {
+	coldStart = true
 	runReplay(t, "C11", func(c *Case, s *Stats) error {
 		cc := *c
 		if cc.Scrib < 20 {
